@@ -76,9 +76,10 @@ theorem inv_step {s : Net} {op : Op} (hmh : s.maxHops > 0) (hI : Inv s) : Inv (s
     rw [step_maxHops]
     cases flight_step hf with
     | old h => exact hI.flight f h
-    | ann hop ha hd hadv =>
-      rw [hadv]
-      exact ⟨by simp [announceAdv], by simp [announceAdv], Or.inl (by simp [announceAdv]; omega)⟩
+    | ann hint hop ha hd hadv =>
+      have h := mem_announceAdvs hadv
+      exact ⟨by rw [h.seenBy]; simp, (fun hw => by rw [h.wd] at hw; cases hw),
+        Or.inl (by rw [h.path]; simp; omega)⟩
     | wdr hop ha hcidr hd hadv =>
       rw [hadv]
       exact ⟨by simp [withdrawAdv], by simp [withdrawAdv], Or.inl (by simp [withdrawAdv])⟩
@@ -98,13 +99,15 @@ theorem inv_step {s : Net} {op : Op} (hmh : s.maxHops > 0) (hI : Inv s) : Inv (s
         simp only [List.length_cons]
         split at this <;> omega
     | rep ord hop ha hb hl hadv =>
-      obtain ⟨o, sq, _, _, hm⟩ := mem_replayAdvs hadv
-      rw [hm]
-      refine ⟨by simp [replayGroup], by simp [replayGroup], Or.inr ⟨by simp [replayGroup], ?_⟩⟩
-      rcases replayGroup_path f.src f.dst ((tick s).nodes f.src) o sq with hp | ⟨e, he, _, _, _, hp⟩
-      · rw [hp]; simp
-      · rw [hp]
-        have := hI.entries _ e he
+      have h := mem_replayAdvs hadv
+      refine ⟨by rw [h.seenBy]; simp, (fun hw => by rw [h.wd] at hw; cases hw),
+        Or.inr ⟨by rw [h.seenBy]; rfl, ?_⟩⟩
+      obtain ⟨p, hp, hcase⟩ := h.path
+      rw [hp]
+      rcases hcase with ⟨hp0, _⟩ | ⟨_, e, he, _, _, hpe⟩
+      · rw [hp0]; simp
+      · have := hI.entries _ e he
+        rw [← hpe]
         simp only [List.length_cons]; omega
 
 /-- C15: with a configured limit `maxHops ≥ 1`, in every reachable state no agent holds a route
@@ -140,7 +143,7 @@ theorem C15_holds : C15_statement := by
     0 is stored by agents 1 and 2, agent 2 does not forward it, agents 3 and 4 never see it. -/
 def chainOps : List Op := [
   .connect 0 1, .connect 1 2, .connect 2 3, .connect 3 4,
-  .announce 0, .deliver 0 1 0, .deliver 1 2 0, .deliver 2 3 0, .deliver 3 4 0]
+  .announce 0 [], .deliver 0 1 0, .deliver 1 2 0, .deliver 2 3 0, .deliver 3 4 0]
 
 def exitAt0 : Node → List RAd := fun x => if x = 0 then [⟨0, 1, 0⟩] else []
 
